@@ -31,10 +31,13 @@ type CallIn struct {
 }
 
 type FnCase struct {
-	Kind    string   `json:"kind"` // "dispatch"
+	Kind    string   `json:"kind"` // "dispatch"; "inspect" when Inspect is used
 	Aliases []Alias  `json:"aliases,omitempty"`
 	Disps   [][]Op   `json:"disps"`
 	Calls   []CallIn `json:"calls"`
+	// Inspect: read-only accessors asked of the resolved function after the calls; the calls are then made again
+	// (twice: calls, accessors, calls, accessors, calls), see inspect.go
+	Inspect []Acc `json:"inspect,omitempty"`
 }
 
 func isParamOp(k string) bool { return k == "Param" || k == "Opt" || k == "Rep" || k == "ReqRep" }
@@ -240,9 +243,9 @@ func applyOp(e *env, d px.Dispatch, o Op, bodies *bodyRec) {
 
 // bodyRec is what the generated Go bodies record when they run.
 type bodyRec struct {
-	idx     int // index of the dispatch this body belongs to
-	ran     *[]bodyRun
-	hasBlk  bool
+	idx    int // index of the dispatch this body belongs to
+	ran    *[]bodyRun
+	hasBlk bool
 }
 
 type bodyRun struct {
@@ -498,6 +501,8 @@ type fnRun struct {
 	// per call: the violations found by the bodies' own assertions
 	bodyViol []string
 	insts    func(t *PTy, v px.Value) bool
+	// the rounds of an inspected function: what the accessors answered and what the same calls did afterwards
+	rounds []roundObs
 }
 
 // aliasesCyclic: some local type refers to itself, directly or through other local types
@@ -672,47 +677,62 @@ func (e *env) runFn(fc *FnCase, ctx px.Context) *fnRun {
 		return run
 	}
 	run.obs.Build = "ok"
-	for _, call := range fc.Calls {
-		args := pxVals(e.c, call.Args)
-		var blk px.Lambda
-		if call.Blk >= 0 {
-			blk = e.lambdas[call.Blk]
-		}
-		ran = ran[:0]
-		o := guard(func() px.Value { return f.Call(ctx, blk, args...) })
-		var co CallObs
-		bv := ""
-		switch {
-		case len(ran) > 1:
-			co = CallObs{Class: "panic", Detail: "more than one body ran"}
-		case len(ran) == 1:
-			r := ran[0]
-			co = CallObs{Class: "body", Body: r.idx}
-			if o.Class != "ok" {
-				co = CallObs{Class: o.Class, Detail: "after the body ran: " + o.Msg}
+	doCalls := func() (cos []CallObs, bvs []string) {
+		for _, call := range fc.Calls {
+			args := pxVals(e.c, call.Args)
+			var blk px.Lambda
+			if call.Blk >= 0 {
+				blk = e.lambdas[call.Blk]
 			}
-			// the body asserts its own declaration on what it received
-			d := run.decls[r.idx]
-			if !matchesParams(d.params, r.args, run.insts) {
-				bv = fmt.Sprintf("body of dispatch %d ran with arguments %s outside its declared parameters {%s}",
-					r.idx, valsText(call.Args), opsText(fc.Disps[r.idx]))
-			} else if !sameValues(r.args, args) {
-				bv = fmt.Sprintf("body of dispatch %d received arguments different from the ones passed", r.idx)
-			} else if !e.matchesBlock(d, call.Blk) {
-				bv = fmt.Sprintf("body of dispatch %d ran with block %s outside its declared block requirement {%s}",
-					r.idx, blockText(call.Blk), opsText(fc.Disps[r.idx]))
-			} else if r.gotBlock && r.block != blk {
-				bv = fmt.Sprintf("body of dispatch %d received a block different from the one passed", r.idx)
+			ran = ran[:0]
+			o := guard(func() px.Value { return f.Call(ctx, blk, args...) })
+			var co CallObs
+			bv := ""
+			switch {
+			case len(ran) > 1:
+				co = CallObs{Class: "panic", Detail: "more than one body ran"}
+			case len(ran) == 1:
+				r := ran[0]
+				co = CallObs{Class: "body", Body: r.idx}
+				if o.Class != "ok" {
+					co = CallObs{Class: o.Class, Detail: "after the body ran: " + o.Msg}
+				}
+				// the body asserts its own declaration on what it received
+				d := run.decls[r.idx]
+				if !matchesParams(d.params, r.args, run.insts) {
+					bv = fmt.Sprintf("body of dispatch %d ran with arguments %s outside its declared parameters {%s}",
+						r.idx, valsText(call.Args), opsText(fc.Disps[r.idx]))
+				} else if !sameValues(r.args, args) {
+					bv = fmt.Sprintf("body of dispatch %d received arguments different from the ones passed", r.idx)
+				} else if !e.matchesBlock(d, call.Blk) {
+					bv = fmt.Sprintf("body of dispatch %d ran with block %s outside its declared block requirement {%s}",
+						r.idx, blockText(call.Blk), opsText(fc.Disps[r.idx]))
+				} else if r.gotBlock && r.block != blk {
+					bv = fmt.Sprintf("body of dispatch %d received a block different from the one passed", r.idx)
+				}
+			case o.Class == "ok":
+				co = CallObs{Class: "nobody"}
+			case o.Class == "reported" && o.Code == string(px.IllegalArguments):
+				co = CallObs{Class: "argerror"}
+			default:
+				co = CallObs{Class: o.Class, Detail: o.Code + " " + o.Msg}
 			}
-		case o.Class == "ok":
-			co = CallObs{Class: "nobody"}
-		case o.Class == "reported" && o.Code == string(px.IllegalArguments):
-			co = CallObs{Class: "argerror"}
-		default:
-			co = CallObs{Class: o.Class, Detail: o.Code + " " + o.Msg}
+			cos = append(cos, co)
+			bvs = append(bvs, bv)
 		}
-		run.obs.Calls = append(run.obs.Calls, co)
-		run.bodyViol = append(run.bodyViol, bv)
+		return
+	}
+	run.obs.Calls, run.bodyViol = doCalls()
+	if len(fc.Inspect) > 0 {
+		dec := e.newDecoder(fc)
+		for round := 0; round < inspectRounds; round++ {
+			ro := roundObs{}
+			for _, a := range fc.Inspect {
+				ro.Acc = append(ro.Acc, e.doAcc(fc, a, &f, rf, ctx, dec))
+			}
+			ro.Calls, ro.Viol = doCalls()
+			run.rounds = append(run.rounds, ro)
+		}
 	}
 	return run
 }
@@ -847,7 +867,7 @@ func (e *env) checkFnIn(res *lib.Result, fc *FnCase, ctx px.Context, wrap func(o
 		}
 		if wf == "yes" && run.obs.Build != "ok" && run.obs.BuildAt == i && !(badType && run.obs.Build == "resolve") {
 			res.Violate(lib.Violation{Clause: "wellformed-declaration-rejected",
-				What: fmt.Sprintf("the builder rejected the well-formed dispatch %d {%s}: %s %s", i, opsText(fc.Disps[i]), run.obs.Build, run.obs.Msg),
+				What:  fmt.Sprintf("the builder rejected the well-formed dispatch %d {%s}: %s %s", i, opsText(fc.Disps[i]), run.obs.Build, run.obs.Msg),
 				Input: wrap(&FnCase{Kind: "dispatch", Aliases: fc.Aliases, Disps: fc.Disps, Calls: nil}), Tags: append([]string{"builder", "rejected-" + run.obs.Build}, tags...)})
 		}
 	}
@@ -855,30 +875,49 @@ func (e *env) checkFnIn(res *lib.Result, fc *FnCase, ctx px.Context, wrap func(o
 		return run
 	}
 	for k, call := range fc.Calls {
-		one := wrap(&FnCase{Kind: "dispatch", Aliases: fc.Aliases, Disps: fc.Disps, Calls: []CallIn{call}})
-		co := run.obs.Calls[k]
-		if bv := run.bodyViol[k]; bv != "" {
-			res.Violate(lib.Violation{Clause: "body-outside-declaration", What: fc.text() + " call " + call.text() + ": " + bv, Input: one, Tags: append([]string{"call"}, tags...)})
+		kind := "dispatch"
+		if len(fc.Inspect) > 0 {
+			kind = "inspect"
 		}
-		if !allWf {
-			continue
-		}
-		exp := e.expected(run, call)
-		switch {
-		case exp >= 0 && !(co.Class == "body" && co.Body == exp):
-			res.Violate(lib.Violation{Clause: "first-matching-dispatch",
-				What: fmt.Sprintf("%s call %s: the first dispatch whose declaration is satisfied is %d, but: %s", fc.text(), call.text(), exp, co),
-				Input: one, Tags: append([]string{"call"}, tags...)})
-		case exp < 0 && co.Class == "body":
-			if run.bodyViol[k] == "" {
-				res.Violate(lib.Violation{Clause: "first-matching-dispatch",
-					What: fmt.Sprintf("%s call %s: no declaration is satisfied, but: %s", fc.text(), call.text(), co),
-					Input: one, Tags: append([]string{"call"}, tags...)})
+		one := wrap(&FnCase{Kind: kind, Aliases: fc.Aliases, Disps: fc.Disps, Calls: []CallIn{call}, Inspect: fc.Inspect})
+		exp := -2
+		// phase 0: the calls after Resolve; phase r > 0: the same calls after the accessors were asked r times
+		for phase := 0; phase <= len(run.rounds); phase++ {
+			co, bv, ptags, when := run.obs.Calls[k], run.bodyViol[k], tags, ""
+			if phase > 0 {
+				co, bv = run.rounds[phase-1].Calls[k], run.rounds[phase-1].Viol[k]
+				ptags = append(append([]string{}, tags...), "after-inspection")
+				when = fmt.Sprintf(" [after the accessors %s were asked %d time(s); before them: %s]", accsText(fc.Inspect), phase, run.obs.Calls[k])
 			}
-		case exp < 0 && co.Class != "argerror":
-			res.Violate(lib.Violation{Clause: "no-match-is-reported-argument-error",
-				What: fmt.Sprintf("%s call %s: no dispatch matches; expected a reported argument error, got: %s", fc.text(), call.text(), co),
-				Input: one, Tags: append([]string{"call", "error-" + co.Class}, tags...)})
+			n := len(res.Violations)
+			if bv != "" {
+				res.Violate(lib.Violation{Clause: "body-outside-declaration", What: fc.text() + " call " + call.text() + ": " + bv + when, Input: one, Tags: append([]string{"call"}, ptags...)})
+			}
+			if !allWf {
+				continue
+			}
+			if exp == -2 {
+				exp = e.expected(run, call)
+			}
+			switch {
+			case exp >= 0 && !(co.Class == "body" && co.Body == exp):
+				res.Violate(lib.Violation{Clause: "first-matching-dispatch",
+					What:  fmt.Sprintf("%s call %s: the first dispatch whose declaration is satisfied is %d, but: %s%s", fc.text(), call.text(), exp, co, when),
+					Input: one, Tags: append([]string{"call"}, ptags...)})
+			case exp < 0 && co.Class == "body":
+				if bv == "" {
+					res.Violate(lib.Violation{Clause: "first-matching-dispatch",
+						What:  fmt.Sprintf("%s call %s: no declaration is satisfied, but: %s%s", fc.text(), call.text(), co, when),
+						Input: one, Tags: append([]string{"call"}, ptags...)})
+				}
+			case exp < 0 && co.Class != "argerror":
+				res.Violate(lib.Violation{Clause: "no-match-is-reported-argument-error",
+					What:  fmt.Sprintf("%s call %s: no dispatch matches; expected a reported argument error, got: %s%s", fc.text(), call.text(), co, when),
+					Input: one, Tags: append([]string{"call", "error-" + co.Class}, ptags...)})
+			}
+			if len(res.Violations) > n {
+				break // one report per call: the first phase in which it goes wrong
+			}
 		}
 	}
 	return run
